@@ -142,6 +142,18 @@ func checkPosition(in buildInput, be *scriggo.BuildError) (sig, desc string) {
 			}
 		}
 		if cls == "" {
+			// a unary expression has the line and column of its operator and the start offset of its operand
+			for off := pos.Start - 1; off >= 0 && off >= pos.Start-6; off-- {
+				if !strings.ContainsRune("*&-+!^<- \t", rune(src[off])) {
+					break
+				}
+				if l2, c2 := linecol(src, off); l2 == pos.Line && c2 == pos.Column {
+					cls = "unary-operator-before-node"
+					break
+				}
+			}
+		}
+		if cls == "" {
 			// an automatically inserted semicolon starts at the byte before the
 			// new line and has the line and column of the new line
 			if l2, c2 := linecol(src, pos.Start+1); l2 == pos.Line && c2 == pos.Column && pos.End == pos.Start {
@@ -443,7 +455,7 @@ func sweepInputs(c *Ctx) []buildInput {
 	// every truncation of corpus files
 	nfiles := 6
 	if c.Thorough() {
-		nfiles = 60
+		nfiles = 25
 	}
 	perm := r.Perm(len(corpus))
 	for k := 0; k < nfiles && k < len(perm); k++ {
@@ -452,8 +464,8 @@ func sweepInputs(c *Ctx) []buildInput {
 		if len(src) > 1200 && !c.Thorough() {
 			src = src[:1200]
 		}
-		if len(src) > 4000 {
-			src = src[:4000]
+		if len(src) > 1500 {
+			src = src[:1500]
 		}
 		formats := []int{cf.Format, r.Intn(6)}
 		if c.Thorough() {
